@@ -13,7 +13,7 @@ RULE = ("(a) every subcircuit object returned by the emulator for basis-state pr
         "constructed directly with perturbed vectors around the CUTOFF thresholds. Oracle = independent bits(k, n) and plain "
         "counting. non-trivial = n >= 2 (bit order observable); distinct = (mode, n, program or outcome list hash)")
 ASSUMPTIONS = ["bits(k, n): character i of the string = bit i of the integer (qubit 0 leftmost and least significant)"]
-TIERS = {"quick": {"shards": 8, "budget_s": 90}, "thorough": {"shards": 16, "budget_s": 300}}
+TIERS = {"quick": {"shards": 8, "budget_s": 180}, "thorough": {"shards": 16, "budget_s": 300}}
 REQUIRE = {"output-lists-for-programs-without-the-harness-gate-set": 8, "views-held-and-rechecked": 5000, "many-shot-output-lists": 2, "mode:frequencies": 50, "mode:job": 50, "mode:emulator": 100, "mode:outputs": 50, "mode:direct": 50, "non-palindromic-certain-outcomes": 50,
            "outcomes-as-int": 500, "outcomes-as-str": 500, "views-checked": 300}
 
